@@ -70,7 +70,7 @@ def base_coverage(run, r, au, extra_rule=''):
         checker_cmd=au['checker_cmd'], trusted_base=TRUSTED_BASE,
         graph_passes_predicted=dict(
             same=sum(1 for i in r['accepted'] if lean.get('%d PASSES' % i, '').startswith('SAME')),
-            side_conditions_hold=sum(1 for i in r['accepted'] if lean.get('%d PASSES' % i, '').endswith('side=1111')),
+            side_conditions_hold=sum(1 for i in r['accepted'] if lean.get('%d PASSES' % i, '').endswith('side=1')),
             differ=[dict(origin=r['corpus'][i].origin, answer=lean.get('%d PASSES' % i, '')[:300]) for i in r['accepted']
                     if lean.get('%d PASSES' % i, '').startswith('DIFF')][:5],
             note='Passes.passes (Lean model of early-accept detection, late-accept removal, dead-end pruning and state de-duplication in Graph::new) applied to the '
